@@ -434,9 +434,35 @@ func (l *loopState) onStageComplete(
 
 		// Placing data from the output into the general data structure
 		l.data[WorkflowStepsKey].(map[string]any)[stepID].(map[string]any)[*previousStage] = map[string]any{}
-		l.data[WorkflowStepsKey].(map[string]any)[stepID].(map[string]any)[*previousStage].(map[string]any)[*previousStageOutputID] = *previousStageOutput
+		l.data[WorkflowStepsKey].(map[string]any)[stepID].(map[string]any)[*previousStage].(map[string]any)[*previousStageOutputID] = toSerializedForm(*previousStageOutput)
 	}
 	l.notifySteps()
+}
+
+// toSerializedForm converts a stage output that a step provider reported as a Go struct (the plugin
+// provider does this for its crashed and deploy_failed outputs) into the serialized map form that expressions
+// and schemas work with, using the JSON field names. All other values are returned unchanged.
+func toSerializedForm(data any) any {
+	v := reflect.ValueOf(data)
+	if v.Kind() == reflect.Ptr && !v.IsNil() {
+		v = v.Elem()
+	}
+	if v.Kind() != reflect.Struct {
+		return data
+	}
+	result := make(map[any]any, v.NumField())
+	for i := 0; i < v.NumField(); i++ {
+		field := v.Type().Field(i)
+		if !field.IsExported() {
+			continue
+		}
+		name := strings.Split(field.Tag.Get("json"), ",")[0]
+		if name == "" {
+			name = field.Name
+		}
+		result[name] = v.Field(i).Interface()
+	}
+	return result
 }
 
 // Marks the outputs of that stage unresolvable.
